@@ -111,7 +111,7 @@ theorem varOf_of_def {p : Prog} {d : Nat} {o : Occ} (ho : p.occs[d]? = some o)
   cases hr : o.role <;> simp_all [Role.isDef]
 
 theorem varOf_of_use {p : Prog} {u : Nat} {o : Occ} (ho : p.occs[u]? = some o)
-    (hr : o.role = .use) : varOf p u = ownerOfUse p o.scope o.name u := by
+    (hr : o.role = .use) : varOf p u = ownerOfUse p o.scope o.name o.stmt := by
   unfold varOf
   rw [ho]
   simp [hr]
